@@ -518,7 +518,7 @@ class JuniperFormatter(CommonFormatter):
                 if "comment" in context:
                     value = (
                         ""
-                        if key.startswith("delete")
+                        if key.startswith("delete ")
                         else key.removeprefix(self.Comment.begin).removesuffix(self.Comment.end).strip()
                     )
                     cmds = (
@@ -526,15 +526,15 @@ class JuniperFormatter(CommonFormatter):
                         " ".join(("annotate", context["row"].split(" ")[0], f'"{value}"')),
                         "exit"
                     )
-                elif key.startswith("delete"):
+                elif key.startswith("delete "):
                     cmds = (
                         " ".join(("delete", *_prev, key.replace("delete", "", 1).strip())),
                     )
-                elif key.startswith("activate"):
+                elif key.startswith("activate "):
                     cmds = (
                         " ".join(("activate", *_prev, key.replace("activate", "", 1).strip())),
                     )
-                elif key.startswith("deactivate"):
+                elif key.startswith("deactivate "):
                     cmds = (
                         " ".join(("deactivate", *_prev, key.replace("deactivate", "", 1).strip())),
                     )
@@ -614,7 +614,7 @@ class NokiaFormatter(JuniperFormatter):
                 for k, v in self.cmd_paths(childs, (*_prev, key.strip())).items():
                     commands[k] = v
             else:
-                if key.startswith("delete"):
+                if key.startswith("delete "):
                     cmd = " ".join((self.patch_set_prefix, "delete", *_prev, key.replace("delete", "", 1).strip()))
                 else:
                     cmd = " ".join((self.patch_set_prefix, *_prev, key.strip()))
